@@ -1,7 +1,9 @@
 // go2v — a translator from a subset of Go to Gallina (see gen/TRANSLATOR.md).
 //
 // trans.go      : package loading + type checking (go/types with a stub importer), type mapping, struct -> Record,
-//                 call graph / effect analysis (does a method write its receiver? does a function loop?), emission.
+//
+//	call graph / effect analysis (does a method write its receiver? does a function loop?), emission.
+//
 // trans_expr.go : expressions (continuation-passing: every sub-expression that can panic becomes a bind).
 // trans_stmt.go : statements, join points, loops.
 //
@@ -21,9 +23,11 @@ import (
 
 // TransSpec says what to translate.
 type TransSpec struct {
-	Dir     string   // package directory below the repository root
-	Structs []string // struct types that become Records
-	Funcs   []string // "Recv.Name" or "Name"; callees inside the package are pulled in automatically
+	Dir       string   // package directory below the repository root
+	Structs   []string // struct types that become Records
+	Funcs     []string // "Recv.Name" or "Name"; callees inside the package are pulled in automatically
+	Extern    []string // [seq] functions translated by another area (its Gen file is imported by the caller's header): analysed, not emitted
+	TimedTail []string // [seq] functions whose body is translated up to the first statement using package time (trans_seq.go)
 }
 
 type unsupported struct{ msg string }
@@ -37,6 +41,7 @@ const (
 	kElem               // a type parameter -> Z, zero value 0
 	kSlice              // []int-like / []T -> list Z
 	kStruct             // a translated struct (or a pointer to it) -> its Record
+	kPlace              // [seq] h := &s[i], s a slice of translated structs -> the index (trans_seq.go)
 )
 
 type gtype struct {
@@ -44,6 +49,7 @@ type gtype struct {
 	bits int
 	st   *structInfo
 	ptr  bool
+	elem *structInfo // [seq] kSlice: the element struct of a []S (nil: list Z)
 }
 
 func (g gtype) coq() string {
@@ -51,6 +57,9 @@ func (g gtype) coq() string {
 	case kBool:
 		return "bool"
 	case kSlice:
+		if g.elem != nil { // [seq]
+			return "list " + g.elem.name
+		}
 		return "list Z"
 	case kStruct:
 		return g.st.name
@@ -99,11 +108,15 @@ type Translator struct {
 	byName  map[string]*ast.FuncDecl
 	order   []*funcInfo
 	global  map[string]bool // Coq names that locals must not shadow
+	seq     *seqState       // [seq] sequential reading of atomics, places, timed tails (trans_seq.go)
 }
 
 type stubImporter struct{}
 
 func (stubImporter) Import(path string) (*types.Package, error) {
+	if p := seqStubPackage(path); p != nil { // [seq] sync/atomic, runtime, time: typed stubs
+		return p, nil
+	}
 	p := types.NewPackage(path, filepath.Base(path))
 	p.MarkComplete()
 	return p, nil
@@ -157,6 +170,9 @@ func (t *Translator) typeOf(ty types.Type, n ast.Node) gtype {
 		e := t.typeOf(x.Elem(), n)
 		if e.k == kInt || e.k == kUint || e.k == kElem {
 			return gtype{k: kSlice}
+		}
+		if e.k == kStruct && !e.ptr { // [seq] []S for a translated struct S
+			return gtype{k: kSlice, elem: e.st}
 		}
 	case *types.Pointer:
 		if nm, ok := x.Elem().(*types.Named); ok {
@@ -238,6 +254,7 @@ func Translate(repo string, spec TransSpec) (out string, err error) {
 	for _, w := range coqReserved {
 		t.global[w] = true
 	}
+	t.seqInit(spec, tpkg, p.Files) // [seq]
 	for _, f := range p.Files {
 		for _, d := range f.Decls {
 			if fd, ok := d.(*ast.FuncDecl); ok && fd.Body != nil {
@@ -291,6 +308,9 @@ func Translate(repo string, spec TransSpec) (out string, err error) {
 	}
 	t.analyse()
 	for _, fi := range t.order {
+		if t.seq.extern[fi.goName] { // [seq] emitted by another area
+			continue
+		}
 		sb.WriteString("\n" + t.emitFunc(fi))
 		// proofs unfold generated definitions through this hint database, so that a helper function that appears
 		// in the source later is unfolded without touching the proof scripts
@@ -394,7 +414,7 @@ func (t *Translator) calleeOf(call *ast.CallExpr) (*types.Func, ast.Expr) {
 		}
 	case *ast.SelectorExpr:
 		if sel := t.info.Selections[f]; sel != nil && sel.Kind() == types.MethodVal {
-			if fn, ok := sel.Obj().(*types.Func); ok {
+			if fn, ok := sel.Obj().(*types.Func); ok && (t.seq == nil || fn.Pkg() == t.seq.pkg) { // [seq] not methods of stub packages
 				return fn.Origin(), f.X
 			}
 		}
@@ -448,6 +468,7 @@ func (t *Translator) assigned(n ast.Node, set map[types.Object]bool) {
 		return
 	}
 	ast.Inspect(n, func(m ast.Node) bool {
+		t.seqAssigned(m, set) // [seq] writes through h := &s[i] and atomic stores
 		switch x := m.(type) {
 		case *ast.AssignStmt:
 			for _, l := range x.Lhs {
@@ -514,7 +535,7 @@ func (t *Translator) analyse() {
 		}
 		for _, fi := range todo {
 			seen[fi] = true
-			ast.Inspect(fi.decl.Body, func(m ast.Node) bool {
+			ast.Inspect(t.body(fi), func(m ast.Node) bool { // [seq] t.body: without a timed tail
 				if c, ok := m.(*ast.CallExpr); ok {
 					if fn, _ := t.calleeOf(c); fn != nil {
 						fi.callees[t.funcFor(fn, c)] = true
@@ -522,7 +543,7 @@ func (t *Translator) analyse() {
 				}
 				return true
 			})
-			fi.loops = hasLoop(fi.decl.Body)
+			fi.loops = hasLoop(t.body(fi))
 		}
 	}
 	for changed := true; changed; {
@@ -530,7 +551,7 @@ func (t *Translator) analyse() {
 		for _, fi := range t.funcs {
 			if fi.recv != nil && fi.recvT.ptr && !fi.writes {
 				set := map[types.Object]bool{}
-				t.assigned(fi.decl.Body, set)
+				t.assigned(t.body(fi), set)
 				if set[fi.recv] {
 					fi.writes, changed = true, true
 				}
